@@ -143,6 +143,15 @@ int  vm_mutex_owner(int mi);      /* 0 free, t+1 */
 int  vm_rwlock_writer(int ri);
 int  vm_rwlock_readers(int ri);
 
+#ifdef VM_PRE_HOOK
+void VM_PRE_HOOK(void);            /* -DVM_PRE_HOOK=fn: called at the entry of every platform call (preemption point of the
+                                      sequential nested-context emulation, C01 nested_* queries) */
+#endif
+#ifdef VM_WAKE_MONITOR
+/* -DVM_WAKE_MONITOR: wake-delivery monitor (C03): see cond_wait; the harness calls vm_wake_delivered() right after
+ * p_cond_variable_wait has returned to it */
+void vm_wake_delivered(void);
+#endif
 #ifdef VM_CW_HOOK
 void VM_CW_HOOK(int ci, int mi);   /* -DVM_CW_HOOK=fn: replaces the blocking part of cond_wait (inductive sequential queries);
                                       with -DVM_CW_RELEASE the platform mutex is released before / re-acquired after the hook */
